@@ -317,7 +317,7 @@ UPGRADER:
 			}
 		case stateStatusBefore:
 			switch c {
-			case ' ':
+			case ' ', '\n':
 			case '\r':
 				// empty reason phrase
 				p.Processor.OnStatus(p, p.statusCode, "")
@@ -334,6 +334,8 @@ UPGRADER:
 			return ErrInvalidHTTPStatus
 		case stateStatus:
 			switch c {
+			case '\n':
+				return ErrInvalidHTTPStatus
 			case '\r':
 				if p.status == "" {
 					p.status = strings.TrimRight(string(data[start:i]), " ")
@@ -513,6 +515,8 @@ UPGRADER:
 			return ErrInvalidChunkSize
 		case stateBodyChunkSize:
 			switch c {
+			case '\n':
+				return ErrInvalidChunkSize
 			case ' ':
 				if p.chunkSize < 0 {
 					chunkSize, err := parseAndValidateChunkSize(string(data[start:i]))
@@ -639,6 +643,8 @@ UPGRADER:
 
 				start = i + 1
 				p.nextState(stateBodyTrailerHeaderValueLF)
+			case '\n':
+				return ErrInvalidCharInHeader
 			default:
 				// if !isToken(c) {
 				// 	return ErrInvalidCharInHeader
@@ -648,6 +654,8 @@ UPGRADER:
 			}
 		case stateBodyTrailerHeaderValue:
 			switch c {
+			case '\n':
+				return ErrInvalidCharInHeader
 			case '\r':
 				if p.headerValue == "" {
 					p.headerValue = strings.TrimRight(string(data[start:i]), " ")
